@@ -19,7 +19,9 @@ import (
 	"testing"
 
 	extv1 "k8s.io/apiextensions-apiserver/pkg/apis/apiextensions/v1"
+	metav1 "k8s.io/apimachinery/pkg/apis/meta/v1"
 	"k8s.io/apimachinery/pkg/apis/meta/v1/unstructured"
+	"k8s.io/apimachinery/pkg/runtime/schema"
 	"k8s.io/utils/ptr"
 	"pgregory.net/rapid"
 
@@ -1251,4 +1253,113 @@ func TestVerifC10MergeOptionsPurity(t *testing.T) {
 			t.Fatalf("%s: current was modified", tc.name)
 		}
 	}
+}
+
+// ---------------------------------------------------------------------------
+// metadata rendering ("a composed resource for which ... metadata rendering ... failed is not created")
+
+// TestVerifC10Metadata judges RenderComposedResourceMetadata against its documented contract: it fails when the XR
+// lacks a (non-empty) name prefix label or the composed resource is controlled by someone else; on success the
+// composed resource is generate-named after the prefix, labelled with the XR's composite/claim labels, annotated with
+// the template name it was rendered from and controlled by the XR; the XR is only read.
+func TestVerifC10Metadata(t *testing.T) {
+	rec := verifkit.New(t, "C10", "RenderComposedResourceMetadata over XRs with the crossplane.io/composite label missing / empty / set, claim labels, composed resources with pre-existing names, labels, annotations (incl. a resource-name annotation of another template) and owner references (none, plain or controller reference to the XR or to someone else); non-trivial = the composed resource already carries metadata; distinct=(xr labels, cd metadata, name)")
+	rapid.Check(t, func(t *rapid.T) {
+		rec.Eval()
+		xr := composite.New(composite.WithGroupVersionKind(schema.GroupVersionKind{Group: "example.org", Version: "v1", Kind: "XThing"}))
+		xr.SetName("xr1")
+		xr.SetUID("uid-xr")
+		labels := map[string]string{}
+		prefixMode := rapid.SampledFrom([]string{"set", "set", "set", "empty", "missing"}).Draw(t, "prefix")
+		switch prefixMode {
+		case "set":
+			labels["crossplane.io/composite"] = rapid.SampledFrom([]string{"xr1", "other-prefix", "x"}).Draw(t, "prefixval")
+		case "empty":
+			labels["crossplane.io/composite"] = ""
+		}
+		if rapid.Bool().Draw(t, "claimlabels") {
+			labels["crossplane.io/claim-name"] = "cm"
+			labels["crossplane.io/claim-namespace"] = "ns"
+		}
+		if rapid.Bool().Draw(t, "otherlabel") {
+			labels["team"] = "a"
+		}
+		if len(labels) > 0 || rapid.Bool().Draw(t, "emptylabels") {
+			xr.SetLabels(labels)
+		}
+		cd := composed.New()
+		cd.SetAPIVersion("example.org/v1")
+		cd.SetKind("KindA")
+		pre := false
+		if rapid.Bool().Draw(t, "named") {
+			cd.SetName("existing-name")
+			pre = true
+		}
+		if rapid.Bool().Draw(t, "cdlabels") {
+			cd.SetLabels(map[string]string{"keep": "me", "crossplane.io/composite": "stale"})
+			pre = true
+		}
+		ann := rapid.SampledFrom([]string{"", "", "tmpl-a", "tmpl-b"}).Draw(t, "cdann")
+		if ann != "" {
+			cd.SetAnnotations(map[string]string{AnnotationKeyCompositionResourceName: ann, "keep": "me"})
+			pre = true
+		}
+		owner := rapid.SampledFrom([]string{"none", "none", "xr-controller", "xr-plain", "foreign-controller", "foreign-plain"}).Draw(t, "owner")
+		switch owner {
+		case "xr-controller":
+			cd.SetOwnerReferences([]metav1.OwnerReference{{APIVersion: "example.org/v1", Kind: "XThing", Name: "xr1", UID: "uid-xr", Controller: ptr.To(true), BlockOwnerDeletion: ptr.To(true)}})
+		case "xr-plain":
+			cd.SetOwnerReferences([]metav1.OwnerReference{{APIVersion: "example.org/v1", Kind: "XThing", Name: "xr1", UID: "uid-xr"}})
+		case "foreign-controller":
+			cd.SetOwnerReferences([]metav1.OwnerReference{{APIVersion: "example.org/v1", Kind: "XThing", Name: "xr2", UID: "uid-other", Controller: ptr.To(true)}})
+		case "foreign-plain":
+			cd.SetOwnerReferences([]metav1.OwnerReference{{APIVersion: "example.org/v1", Kind: "XThing", Name: "xr2", UID: "uid-other"}})
+		}
+		if owner != "none" {
+			pre = true
+		}
+		name := ResourceName(rapid.SampledFrom([]string{"", "tmpl-a", "tmpl-a", "tmpl-b"}).Draw(t, "rname"))
+		xrBefore := verifkit.JSON(xr.Object)
+		var err error
+		c10NoPanic(t, "RenderComposedResourceMetadata", func() { err = RenderComposedResourceMetadata(cd, xr, name) })
+		if verifkit.JSON(xr.Object) != xrBefore {
+			t.Fatalf("RenderComposedResourceMetadata modified the XR: %s -> %s", xrBefore, verifkit.JSON(xr.Object))
+		}
+		rec.Labelf("metadata:prefix=%s,owner=%s,err=%v", prefixMode, owner, err != nil)
+		wantErr := prefixMode != "set" || owner == "foreign-controller"
+		if wantErr != (err != nil) {
+			t.Fatalf("RenderComposedResourceMetadata(prefix label %s, owner %s, name %q) error = %v, want error: %v (a resource whose metadata cannot be rendered must be skipped, not created)", prefixMode, owner, name, err, wantErr)
+		}
+		if err == nil {
+			prefix := labels["crossplane.io/composite"]
+			if got := cd.GetGenerateName(); got != prefix+"-" {
+				t.Fatalf("generateName %q, want %q", got, prefix+"-")
+			}
+			if got := cd.GetLabels()["crossplane.io/composite"]; got != prefix {
+				t.Fatalf("composed resource label crossplane.io/composite = %q, want the XR's %q", got, prefix)
+			}
+			for _, k := range []string{"crossplane.io/claim-name", "crossplane.io/claim-namespace"} {
+				if got := cd.GetLabels()[k]; got != labels[k] {
+					t.Fatalf("composed resource label %s = %q, want the XR's %q", k, got, labels[k])
+				}
+			}
+			if name != "" && GetCompositionResourceName(cd) != name {
+				t.Fatalf("composed resource is annotated as %q, rendered from template %q", GetCompositionResourceName(cd), name)
+			}
+			if c := metav1.GetControllerOf(cd); c == nil || c.UID != "uid-xr" {
+				t.Fatalf("composed resource is not controlled by the XR after rendering: %v", cd.GetOwnerReferences())
+			}
+			if cd.GetName() != "" && cd.GetName() != "existing-name" {
+				t.Fatalf("rendering metadata changed the name to %q", cd.GetName())
+			}
+			if ann != "" && cd.GetAnnotations()["keep"] != "me" {
+				t.Fatalf("rendering metadata dropped an unrelated annotation: %v", cd.GetAnnotations())
+			}
+		}
+		if pre {
+			rec.NonTrivial(verifkit.JSON([]any{labels, prefixMode, owner, ann, string(name), cd.GetName() != ""}), func() any {
+				return map[string]any{"xrLabels": labels, "prefix": prefixMode, "owner": owner, "existingAnnotation": ann, "templateName": string(name)}
+			})
+		}
+	})
 }
